@@ -288,7 +288,10 @@ CLAIMED = {
         "bound]); every division `_1 / _2` is by the image that passed threshold_min_to_small_positive_value in this call, or by the stored "
         "denominator in the branch excluding the first executed sub-iteration, the stored one being copied from the thresholded image; the "
         "additive update is subgradient*num_subsets/D*relaxation with relaxation = alpha/(1+gamma*(n div N)), added to the image "
-        "afterwards. NOT decided: that D equals the stated curvature, restart equality.",
+        "afterwards; the denominator is built as the property defines it: the stored part is a fresh empty image into which the "
+        "approximate Hessian applied to an image of ones is accumulated and then negated once (every element, every path), and the "
+        "divisor is 2 * prior.parabolic_surrogate_curvature(current image) + stored part with a prior, the stored part without. NOT "
+        "decided: the values of the Hessian and curvature themselves, restart equality.",
         technique="static analysis: must-pass-through / dominance on clang CFG, must-facts at divisions, expression-shape matching "
         "of the update pipeline",
     ),
